@@ -5,6 +5,7 @@ import (
 	"errors"
 	"fmt"
 	"math/rand"
+	"slices"
 	"strings"
 	"time"
 
@@ -506,6 +507,16 @@ func (d *dealer) syncRegister(callee *wamp.Session, msg *wamp.Register, match, i
 		}
 
 		regID = reg.id
+
+		// If the callee is already registered for this procedure, then there
+		// is nothing to add; answer with the existing registration ID.
+		if slices.Contains(reg.callees, callee) {
+			d.trySend(callee, &wamp.Registered{
+				Request:      msg.Request,
+				Registration: regID,
+			})
+			return metaPubs
+		}
 
 		// Add callee for the registration.
 		reg.callees = append(reg.callees, callee)
